@@ -11,7 +11,7 @@ func init() { generators["C02"] = genC02 }
 
 // methods of the package (by bare method name) whose body contains a call `x.callee(...)`
 // or `callee(...)`
-func (p *pkgInfo) callersOfMethod(callee string) []string {
+func (p *pkgInfo) c02CallersOfMethod(callee string) []string {
 	var out []string
 	for k, fd := range p.funcs {
 		if fd.Body == nil {
@@ -156,7 +156,7 @@ func genC02(p *pkgInfo, l *leanFile) {
 	}
 	l.pf("/-- functions of the package calling obtainOnDemandCertificate / loadCertFromStorage / the issuing entry points -/\n")
 	for _, callee := range []string{"obtainOnDemandCertificate", "loadCertFromStorage", "renewDynamicCertificate", "handshakeMaintenance", "optionalMaintenance"} {
-		l.pf("def callers_%s : List String := %s\n", callee, leanStrList(p.callersOfMethod(callee)))
+		l.pf("def callers_%s : List String := %s\n", callee, leanStrList(p.c02CallersOfMethod(callee)))
 	}
 	// issuing calls made by functions of handshake.go
 	var sites []string
